@@ -35,4 +35,7 @@ def run(ctx: CheckContext):
     run_control(ctx, "C13/sibling-flags", analyse, p.root, g,
                 "                is_utility_profile=[False, False, False, False, True],\n            )\n        )\n\n    if GT.TSP.value in t.graphs:",
                 "                is_utility_profile=[False, False, True, False, True],\n            )\n        )\n\n    if GT.TSP.value in t.graphs:", "T3-SIB")
+    run_control(ctx, "C13/recursion-guarded-by-targets", analyse, p.root, g,
+                "    if len(zone.subzones) > 0:\n        for z in zone.subzones.values():\n            graph_sets = get_output_graph_data(z, graph_sets)",
+                "    if len(zone.targets) > 0:\n        for z in zone.subzones.values():\n            graph_sets = get_output_graph_data(z, graph_sets)", "TRAV")
     run_control(ctx, "C13/title-not-key", analyse, p.root, g, "graph_sets[key] = _create_graph_set(t, key)", "graph_sets[key] = _create_graph_set(t, zone.name)", "TRAV")
